@@ -60,7 +60,7 @@ def startReader (f : FsCfg) (h : Handle) : M Handle := do
     match ← fetchedHeader f h.path with
     | some hd =>
       if hd.typeflag == tfDir then M.wedge .stuck
-      else if f.c.emptyDecodeFails && hd.size == 0 && (hd.pax.get Gen.recSTFSRecordUncompressedSize).isNone then M.fail .other
+      else if f.c.emptyDecodeFails && hd.size == 0 && (hd.pax.get Gen.recSTFSRecordUncompressedSize).isNone then M.fail f.c.emptyReadErr
       else pure { h with reader := some (data, 0) }
     | none => pure { h with reader := some (data, 0) }
   | .error .stuck => M.fail .stuck
